@@ -46,6 +46,16 @@ func routeInstances(tier string) []explore.Params {
 		}
 		return []explore.Params{{"pat": strings.Join(pats, ",")}}
 	}
+	if tier == "rawpeer" { // C06: one end is a hand-written peer that sends ids and acknowledgements in two pieces
+		for _, raw := range []string{"h", "p"} {
+			for _, a := range []string{"hA0", "hD0", "pA0", "pD0", "hA2000", "pD2000"} {
+				out = append(out, explore.Params{"pat": a, "raw": raw, "notime": "1"})
+				out = append(out, explore.Params{"pat": a, "raw": raw, "ids": "261", "notime": "1"}) // 0x105: more than one non-zero byte
+			}
+			out = append(out, explore.Params{"pat": "hA0,pA0", "raw": raw, "ids": "5,261", "notime": "1"}, explore.Params{"pat": "hA0,hA0", "raw": raw, "ids": "5,261", "notime": "1"}, explore.Params{"pat": "pD0,pD0", "raw": raw, "ids": "5,261", "notime": "1"})
+		}
+		return out
+	}
 	if tier == "fine" { // function-entry preemption points on; two ids dialled at once from one side with one shared option slice
 		for _, pp := range []string{"hA0,hA0", "pA0,pA0", "hA0,pA0", "hD0,hD0", "pD0,pD0"} {
 			out = append(out, explore.Params{"pat": pp, "opts": "shared", "fine": "1"})
